@@ -88,10 +88,9 @@ def checker_factory(modname):
             except Unsupported as u:
                 sw.undecided.append(dict(n=n, why='%s: %s' % (kind, u)))
                 continue
-            if status != 'ok':
+            partial = status != 'ok'
+            if partial:
                 sw.undecided.append(dict(n=n, why='%s@%d: closure budget' % (kind, i)))
-                sw.obligations.append((oid, 'undecided', ''))
-                continue
             ok = True
             unknown = False
             for ctx, r in paths:
@@ -113,7 +112,7 @@ def checker_factory(modname):
                 ok = False
                 sw.finding('typing error accepted', '%s at position %d of %d' % ('substitution' if kind == 'subst' else 'adjacent transposition', i, L),
                            input=vx, altered=x2, opts=opts, today=td, approx=ctx.approx or bool(getattr(ctx, 'soft', None)), real=[list(r1[:2]), list(r2[:2])], reproduced=rep_)
-            sw.obligations.append((oid, 'undecided' if (unknown and ok) else ('proved' if ok else 'refuted'), '%d paths' % len(paths)))
+            sw.obligations.append((oid, 'undecided' if ((unknown or partial) and ok) else ('proved' if ok else 'refuted'), '%d paths' % len(paths)))
         if not sw.samples:
             sw.samples.append(dict(n=n, obligations_per_accepting_path=len(kinds)))
     return checker
